@@ -793,6 +793,6 @@ func init() {
 		ID:      "C01",
 		Explain: "Static pairing / provenance / sibling rules over the rule index of IndexedState, the pattern trie and the parsed-rule cache of both state implementations: structural necessary conditions of \"no matching rule is skipped because of how rules are indexed, and a removed / overwritten / re-patterned rule is never dispatched on its former pattern\". Does not decide completeness of the trie search beyond visit<=>collect, the bindings produced, ancestor merging or expiry timing.",
 		Assume:  []string{"the rule index is touched only through PatternIndex.AddPatternMap / RemPatternMap / SearchPatternsMap (checked: callers are resolved through go/types)"},
-		Rules:   []ruleFn{ruleCacheInv, ruleIdxRem, ruleIdxAdd, ruleIdxVisit, ruleIdxBranch, ruleIdxSort, ruleDispRematch, ruleIdxRest, ruleIdxReset, ruleLoopExhaust("C01"), ruleCopyEmpty("C01"), ruleParentsValue("C01"), ruleIdxRollback("C01"), ruleIdxOrder("C01"), ruleAncOnce("C01"), ruleSchedAgree, ruleIdxKeyVar, ruleLessCovers, rulePicastIdem, ruleModIndex("C01"), ruleIdxSortTotal("C01"), ruleLostRuleSkip, ruleWhenAgree("C01"), ruleRuleShapedSkip("C01"), ruleIdxCanon("C01"), ruleCacheGen("C01"), ruleStateFresh("C01")},
+		Rules:   []ruleFn{ruleIdxEmptyAll("C01"), ruleCacheInv, ruleIdxRem, ruleIdxAdd, ruleIdxVisit, ruleIdxBranch, ruleIdxSort, ruleDispRematch, ruleIdxRest, ruleIdxReset, ruleLoopExhaust("C01"), ruleCopyEmpty("C01"), ruleParentsValue("C01"), ruleIdxRollback("C01"), ruleIdxOrder("C01"), ruleAncOnce("C01"), ruleSchedAgree, ruleIdxKeyVar, ruleLessCovers, rulePicastIdem, ruleModIndex("C01"), ruleIdxSortTotal("C01"), ruleLostRuleSkip, ruleWhenAgree("C01"), ruleRuleShapedSkip("C01"), ruleIdxCanon("C01"), ruleCacheGen("C01"), ruleStateFresh("C01")},
 	})
 }
